@@ -86,6 +86,7 @@ var reParam = regexp.MustCompile(`\bp(\d+)\b`)
 func rulesC12(w *World, r *Report) {
 	r.Rule("C12.R1", "one implementation: for each dispatcher the local branch calls L, the remote branch requests a registered route whose handler calls the same L", 5)
 	ruleIsBaseURL(w, r, "C12.R1")
+	rulePathOrder(w, r, "C12.R1")
 	r.Rule("C12.R2", "set agreement + derives-from: keys in the client's query format = keys the handler reads; for each key the Local parameter it reaches in the handler is the one the dispatcher's local branch feeds from the same dispatcher argument; every %s query value is url.QueryEscape(...)", 10)
 	r.Rule("C12.R3", "timestamps cross as text: client sends QueryEscape(Timestamp.String(x)); handler parses with ParseTimestamp(Form.Get(key))", 6)
 	r.Rule("C12.R4", "framing: handler encodes Header.AppendTo then one element AppendTo per archive of that header; client decodes Header.TakeFrom then one element TakeFrom per archive of the decoded header, same element type", 3)
